@@ -199,3 +199,68 @@ mutant("c20-early-return-before-restore", "C20", (L, CTX, CTX.replace("""       
             for key, value""")), "", kind="equivalent") if False else None
 equivalent("c20-eq-dict-snapshot", "C20", (L, "rollback_settings = vars(self).copy()", "rollback_settings = dict(vars(self))"))
 equivalent("c20-eq-renamed-locals", "C20", (L, CTX, CTX.replace("rollback_settings", "saved").replace("for key, value in context_settings.items():\n                setattr(self, key, saved[key])", "for k, _v in context_settings.items():\n                setattr(self, k, saved[k])")))
+
+# ------------------------------------------------------------------------------------------ C12
+DEFUZ = """        value = self.defuzzifier.defuzzify(self.fuzzy, self.minimum, self.maximum)
+
+        # previous value is the last element of the value at t
+        self.previous_value = np.take(self.value, -1).astype(float)
+"""
+LOCK = """        # Locking previous values
+        if self.lock_previous:
+            with np.nditer(value, op_flags=[["readwrite"]]) as iterator:
+                previous_value = self.previous_value
+                for value_i in iterator:
+                    if np.isnan(value_i):
+                        value_i[...] = previous_value  # type:ignore
+                    else:
+                        previous_value = value_i  # type: ignore
+"""
+DEFAULT = """        # Applying default values
+        if not np.isnan(self.default_value):
+            value[np.isnan(value)] = self.default_value  # type: ignore
+"""
+mutant("c12-default-before-lock", "C12", (V, LOCK + "\n" + DEFAULT, DEFAULT + "\n" + LOCK), "O4/OutputVariable.defuzzify/order")
+mutant("c12-previous-before-defuzzify", "C12", (V, DEFUZ, """        # previous value is the last element of the value at t
+        self.previous_value = np.take(self.value, -1).astype(float)
+        value = self.defuzzifier.defuzzify(self.fuzzy, self.minimum, self.maximum)
+"""), "O2/")
+mutant("c12-capture-after-commit", "C12", [(V, """
+        # previous value is the last element of the value at t
+        self.previous_value = np.take(self.value, -1).astype(float)
+""", "\n"), (V, """        # Committing the value
+        self.value = value
+""", """        # Committing the value
+        self.value = value
+        self.previous_value = np.take(self.value, -1).astype(float)
+""")], "O")
+mutant("c12-commit-bypasses-setter", "C12", (V, "        # Committing the value\n        self.value = value\n", "        # Committing the value\n        self._value = value\n"), "O6/OutputVariable.defuzzify/commit")
+mutant("c12-enabled-check-removed", "C12", (V, """        if not self.enabled:
+            return
+
+        if not self.defuzzifier:""", """        if not self.defuzzifier:"""), "O1/")
+mutant("c12-no-carried-update", "C12", (V, """                    if np.isnan(value_i):
+                        value_i[...] = previous_value  # type:ignore
+                    else:
+                        previous_value = value_i  # type: ignore
+""", """                    if np.isnan(value_i):
+                        value_i[...] = previous_value  # type:ignore
+"""), "O5/OutputVariable.defuzzify/lock-fill")
+mutant("c12-default-fills-everything", "C12", (V, "value[np.isnan(value)] = self.default_value", "value[...] = self.default_value"), "O5/OutputVariable.defuzzify/default-fill")
+mutant("c12-default-guard-flipped", "C12", (V, "if not np.isnan(self.default_value):", "if np.isnan(self.default_value):"), "O5/OutputVariable.defuzzify/default-fill")
+mutant("c12-clip-bounds-swapped", "C12", (V, "np.clip(value, self.minimum, self.maximum) if self.lock_range else value", "np.clip(value, self.maximum, self.minimum) if self.lock_range else value"), "O6/Variable.value.setter/lock-range")
+mutant("c12-clip-polarity", "C12", (V, "np.clip(value, self.minimum, self.maximum) if self.lock_range else value", "value if self.lock_range else np.clip(value, self.minimum, self.maximum)"), "O6/Variable.value.setter")
+mutant("c12-clear-keeps-previous", "C12", (V, """        self.fuzzy.clear()
+        self.previous_value = nan
+        self.value = nan""", """        self.fuzzy.clear()
+        self.value = nan"""), "O8/OutputVariable.clear/previous")
+mutant("c12-seed-from-default", "C12", (V, "                previous_value = self.previous_value\n", "                previous_value = self.default_value\n"), "O5/OutputVariable.defuzzify/lock-fill")
+mutant("c12-fuzzy-cleared-before-defuzzify", ["C12"], (V, "        if not self.defuzzifier:\n            raise ValueError(\n                f\"expected a defuzzifier in output variable", "        self.fuzzy.terms.sort(key=id)\n        if not self.defuzzifier:\n            raise ValueError(\n                f\"expected a defuzzifier in output variable"), "O2/")
+equivalent("c12-eq-setter-if-statement", "C12", (V, "        self._value = np.clip(value, self.minimum, self.maximum) if self.lock_range else value", "        if self.lock_range:\n            self._value = np.clip(value, self.minimum, self.maximum)\n        else:\n            self._value = value"))
+equivalent("c12-eq-early-return-positive", "C12", (V, """        if not self.enabled:
+            return
+
+        if not self.defuzzifier:""", """        if self.enabled is False or not self.enabled:
+            return None
+
+        if not self.defuzzifier:"""))
